@@ -220,6 +220,11 @@ func generate(rng *rand.Rand, steps int, profile string) ([]string, []string, ma
 	g.do(fmt.Sprintf("init 8 %d", nb))
 	g.do("mode RW")
 	g.mode = "RW"
+	if profile == "mgmt" && rng.Intn(2) == 0 {
+		// a small MAX_CHAIN_LENGTH: snapshots run into the limit, and every open must still succeed
+		g.do(fmt.Sprintf("maxchain %d", 3+rng.Intn(5)))
+		g.feat["chain-limit"] = true
+	}
 	if rng.Intn(3) != 0 {
 		g.do("punch 1")
 		g.punchd = true
@@ -402,6 +407,12 @@ func generate(rng *rand.Rand, steps int, profile string) ([]string, []string, ma
 			g.feat["mark-user"] = true
 		case "invalid":
 			ch := g.chain()
+			if len(ch) >= 2 && g.mode != "RW" && rng.Intn(2) == 0 {
+				// a step of the deletion flow sent to a replica that is not RW
+				g.do("replace " + ch[len(ch)-2].name + " " + ch[len(ch)-1].name)
+				g.feat["replace-not-rw"] = true
+				break
+			}
 			switch rng.Intn(7) {
 			case 0:
 				if len(ch) > 0 {
